@@ -270,6 +270,65 @@ func runC17(c *fw.Ctx) {
 			completed = depth
 		}
 		c.Bound("depth_completed_"+name, completed)
+		c17Catalogue(c, p.engines)
 	}
 	c.Bound("alphabet", len(alpha))
+}
+
+// c17Catalogue: on a table whose keys differ by trailing 0x00 / 0xff bytes, every single row range of the C03
+// bound catalogue (15 x 15, with and without an extra row key and a limit) and every row-key prefix of a small
+// catalogue (incl. prefixes made only of 0xff bytes, and the empty prefix) for DropRowRange: all engines must
+// answer alike and hold the same rows afterwards.
+func c17Catalogue(c *fw.Ctx, engines []string) {
+	keys := append(append([]string(nil), c03Keys...), "\xff\xff", "a\xff", "b\x00")
+	setup := append(setupT(), populate(keys, 2)[1:]...)
+	run := func(item int64, ops []bt.Op) {
+		if !c.Mine(item) {
+			return
+		}
+		all := append(append([]bt.Op(nil), setup...), ops...)
+		w := newDiffWorld(c, engines)
+		defer w.Close()
+		for i := range all {
+			check := i >= len(setup)-1
+			m, cl := w.step(&all[i], check)
+			if check {
+				c.Eval(1)
+				c.Trace(int64(len(engines)))
+				c.Trans(1)
+				c.State(fw.Hash("catalogue", fmt.Sprint(engines), all[i].String()))
+			}
+			if m != "" {
+				dc := diffCase{Engines: engines, Ops: all[:i+1]}
+				c.Violate(fmt.Sprintf("C17:%s:%s", cl, c17Tag(&all[i])), m+"\n  program: "+bt.OpsString(all[:i+1]), dc, func() string {
+					b, _ := json.Marshal(dc)
+					s, _ := replayC17(c, b)
+					return s
+				})
+				c.Outcome("violation:" + cl)
+				return
+			}
+		}
+		c.Outcome("agree:catalogue")
+	}
+	var item int64
+	// reads do not change the state: many per world
+	var reads []bt.Op
+	for _, r := range c03Ranges() {
+		reads = append(reads, bt.Op{Kind: "ReadRows", Table: tblT, HasRowSet: true, Ranges: []bt.Range{r}})
+		reads = append(reads, bt.Op{Kind: "ReadRows", Table: tblT, HasRowSet: true, Ranges: []bt.Range{r}, Keys: [][]byte{[]byte("a\xff")}, Limit: 2})
+	}
+	for i := 0; i < len(reads); i += 30 {
+		j := i + 30
+		if j > len(reads) {
+			j = len(reads)
+		}
+		item++
+		run(item, reads[i:j])
+	}
+	for _, pfx := range []string{"", "a", "a\x00", "a\xff", "ab", "b", "\x00", "\xff", "\xff\xff", "\xff\xff\xff", "zz"} {
+		item++
+		run(item, []bt.Op{{Kind: "DropRowRange", Table: tblT, Prefix: []byte(pfx)}, {Kind: "SampleRowKeys", Table: tblT, Coins: []bool{true, false, true, false}}})
+	}
+	c.Bound("catalogue_reads", len(reads))
 }
